@@ -34,6 +34,41 @@ class Injected(RuntimeError):
     """The exception the harness makes a plug-in raise."""
 
 
+HANG_S = float(__import__("os").environ.get("VERIF_HANG_S", "180"))
+
+
+class Hang(BaseException):
+    """raised in the main thread by the watchdog when the call under test blocks"""
+
+
+class _watchdog:  # noqa: N801
+    """interrupts a blocked call: SIGALRM every HANG_S seconds while the call (and its unwinding) lasts; main thread only"""
+
+    def __init__(self, seconds: float | None = None) -> None:
+        self.seconds = seconds or HANG_S
+
+    def __enter__(self):
+        import signal
+        import threading
+
+        self.on = threading.current_thread() is threading.main_thread()
+        if self.on:
+            def handler(signum, frame):  # noqa: ARG001
+                raise Hang
+
+            self.old = signal.signal(signal.SIGALRM, handler)
+            signal.setitimer(signal.ITIMER_REAL, self.seconds, self.seconds)
+        return self
+
+    def __exit__(self, *exc):
+        import signal
+
+        if self.on:
+            signal.setitimer(signal.ITIMER_REAL, 0, 0)
+            signal.signal(signal.SIGALRM, self.old)
+        return False
+
+
 class InjectedInterrupt(BaseException):
     """... or an interrupt that is not an Exception (what Ctrl-C / SystemExit inside a plug-in looks like)."""
 
@@ -222,14 +257,25 @@ def scripted_model_slow(theta, N, seed):  # noqa: N803
     return _model(theta, N, seed, 1)
 
 
-MODELS = {1: scripted_model, 2: scripted_model_2, 3: scripted_model_3, "slow": scripted_model_slow}
+def scripted_model_scribble(theta, N, seed):  # noqa: N803
+    """a model that uses its parameter argument as scratch space (legal for a user function: the argument is its own)"""
+    out = _model(theta, N, seed, 1)
+    try:
+        theta[...] = -1.0 - np.abs(theta)
+    except (ValueError, TypeError):
+        pass        # a read-only buffer / not an array
+    return out
+
+
+MODELS = {1: scripted_model, 2: scripted_model_2, 3: scripted_model_3, "slow": scripted_model_slow, "scribble": scripted_model_scribble}
 
 
 def current_model():
-    return MODELS["slow"] if SLOW[0] else MODELS[MODEL_D[0]]
+    return MODELS["slow"] if SLOW[0] else MODELS["scribble"] if SCRIBBLE[0] else MODELS[MODEL_D[0]]
 
 
 SLOW = [False]
+SCRIBBLE = [False]
 
 
 def decode_series(series):
@@ -539,6 +585,8 @@ def run_script(script: dict) -> dict:
     REC = rec
     base_threads = set(threading.enumerate())
     folder = tempfile.mkdtemp(prefix="verif-ckpt-")
+    folder2 = tempfile.mkdtemp(prefix="verif-ckpt2-")      # explicit checkpoints may go to a folder other than the saving folder
+    prev_kind = None
     install()
     cal = None
     try:
@@ -546,7 +594,8 @@ def run_script(script: dict) -> dict:
             samplers = [make_sampler(d, 9000 + i) for i, d in enumerate(cfg["lineup"])]
             loss = TableLoss(script.get("loss", {}).get("by", {}), script.get("loss", {}).get("default", 6), int(cfg.get("D", 1)))
             SLOW[0] = bool(cfg.get("slow", False))
-            MODEL_D[0] = 1 if SLOW[0] else int(cfg.get("D", 1))
+            SCRIBBLE[0] = bool(cfg.get("scribble", False)) and not SLOW[0]
+            MODEL_D[0] = 1 if SLOW[0] or SCRIBBLE[0] else int(cfg.get("D", 1))
             real = np.zeros((cfg.get("Nreal", cfg["N"]), MODEL_D[0]))
             sched = build_scheduler(cfg, samplers, script.get("agent"))
             kw = {"samplers": samplers} if sched is None else {"scheduler": sched}
@@ -565,9 +614,15 @@ def run_script(script: dict) -> dict:
                     rec.in_call = True
                     raised = False
                     try:
-                        p, lo = cal.calibrate(op[1])
+                        with _watchdog():
+                            p, lo = cal.calibrate(op[1])
                         rec.in_call = False
                         rec.log({"e": "ret", "pairs": [[rec.pid(p[i]), rec.loss_id(lo[i])] for i in range(len(p))]})
+                    except Hang:
+                        # calibrate() neither returned nor raised within HANG_S seconds (normal duration: well under a second)
+                        rec.in_call = False
+                        rec.log({"e": "hang", "call": rec.session, "after": HANG_S})
+                        break
                     except (Exception, InjectedInterrupt) as e:  # noqa: BLE001
                         rec.in_call = False
                         raised = True
@@ -578,11 +633,14 @@ def run_script(script: dict) -> dict:
                     if raised:
                         cleanup_threads(cal, base_threads)
                 elif kind == "mkckpt":
+                    if cfg.get("elsewhere"):
+                        cal.create_checkpoint(folder2)
                     cal.create_checkpoint(folder)
                     rec.log({"e": "mkckpt"})
                     rec.log(disk_event(rec, folder))
                 elif kind == "restore":
-                    cal = Calibrator.restore_from_checkpoint(folder, model=current_model())
+                    src = folder2 if cfg.get("elsewhere") and prev_kind == "mkckpt" else folder
+                    cal = Calibrator.restore_from_checkpoint(src, model=current_model())
                     rec.cal = cal
                     rec.log({"e": "restore"})
                     rec.log(idle_event(rec, cal, base_threads, False))
@@ -600,6 +658,7 @@ def run_script(script: dict) -> dict:
                     rec.log(idle_event(rec, cal, base_threads, False))
                 else:
                     raise ValueError(kind)
+                prev_kind = kind
     except Exception as e:  # noqa: BLE001  -- the harness itself could not go on: recorded, validated as far as it got
         rec.events.append({"e": "harness-error", "what": f"{type(e).__name__}: {e}"[:300]})
     finally:
@@ -608,6 +667,7 @@ def run_script(script: dict) -> dict:
             cleanup_threads(cal, base_threads)
         REC = None
         shutil.rmtree(folder, ignore_errors=True)
+        shutil.rmtree(folder2, ignore_errors=True)
     tcfg = {"lineup": cfg["lineup"], "alts": cfg["alts"], "kind": cfg["kind"], "E": cfg["E"], "N": cfg["N"],
             "convon": cfg["convon"], "verbose": cfg["verbose"], "saving": cfg["saving"], "modelevents": cfg["modelevents"]}
     return {"cfg": tcfg, "ev": rec.events, "script": script}
